@@ -1,0 +1,30 @@
+//go:build verif
+
+package bloom
+
+import "sync"
+
+// SimHook, when set (only by the verification harness, before any goroutine
+// that uses a Filter is started), is called at every simulation point with
+// the site number and, for sites that surround a lock operation, the mutex
+// concerned. It carries no truth about the lock: the harness reads the state
+// of the real mutex itself.
+var SimHook func(site int, mu *sync.Mutex)
+
+func simPoint(site int, mu *sync.Mutex) {
+	if h := SimHook; h != nil {
+		h(site, mu)
+	}
+}
+
+// Exported site numbers, so the harness can enable subsets per run.
+const (
+	SimSiteBeforeLock   = siteBeforeLock
+	SimSiteAfterLock    = siteAfterLock
+	SimSiteBeforeUnlock = siteBeforeUnlock
+	SimSiteHashLoop     = siteHashLoop
+	SimSiteTxPhase      = siteTxPhase
+	SimSiteTxOutput     = siteTxOutput
+	SimSiteBlockTx      = siteBlockTx
+	SimSiteCount        = siteCount
+)
